@@ -245,6 +245,43 @@ def lock_wrapper(inc):
     return True, "lock() = m_lock.lock(), unlock() = m_lock.unlock()"
 
 
+def run_excl(check, probes, prop, res):
+    """[(kind index, method)] -> list of result lines; an OVERLAP is a concrete violation"""
+    import sched_check
+    import glob as _glob
+    out = []
+    built = {}
+    os.makedirs(os.path.join(check.BUILD, "bin"), exist_ok=True)
+    for kd, mname in probes:
+        exe = os.path.join(check.BUILD, "bin", "excl_%d" % kd)
+        if kd not in built:
+            cmd = ["g++", "-std=c++17", "-O1", "-I" + os.path.join(check.REPO, "inc"), "-DKIND=%d" % kd,
+                   os.path.join(check.ROOT, "harness", "excl.cpp")] + sorted(_glob.glob(os.path.join(check.REPO, "src", "*.cpp"))) + ["-o", exe, "-pthread"]
+            r = subprocess.run(cmd, capture_output=True, text=True)
+            built[kd] = r.returncode == 0
+            if not built[kd]:
+                out.append("%s: probe does not build: %s" % (check.KINDS[kd], r.stderr[-300:]))
+        if not built[kd]:
+            continue
+        bop = sched_check.METHOD_OPS[mname].format(v=1 if kd == 9 else 55, w=1 if kd == 9 else 56)
+        for a in ("insert", "find"):
+            try:
+                r = subprocess.run([exe, a] + bop.split(), capture_output=True, text=True, timeout=60)
+                line = r.stdout.strip() or ("exit %d %s" % (r.returncode, r.stderr[-200:]))
+            except subprocess.TimeoutExpired:
+                line = "timeout"
+            out.append("%s %s: %s" % (check.KINDS[kd], mname, line))
+            if line.startswith("OVERLAP"):
+                res["conc_violations"].append(dict(
+                    property=prop, kind=check.KINDS[kd],
+                    what="%s::%s completed while another thread was parked inside the critical section of %s (holding the container lock): "
+                         "the call is not mutually excluded from it, and the lock skeleton of the current source says it touches shared members "
+                         "outside the lock" % (CLASSES[kd], mname, a),
+                    probe="build/bin/excl_%d %s %s" % (kd, a, bop), output=line,
+                    how_to_replay="g++ -std=c++17 -O1 -I/repo/inc -DKIND=%d harness/excl.cpp /repo/src/*.cpp -pthread && ./a.out %s %s" % (kd, a, bop)))
+    return out
+
+
 def run(prop, tier, seed, res, check):
     inc = os.path.join(check.REPO, "inc")
     res.setdefault("conc_violations", [])
@@ -267,6 +304,21 @@ def run(prop, tier, seed, res, check):
             sig = "%s:%d:%d" % (c, v["methods"], v["accesses"])
             res["distinct"].add(sig)
             res["nontrivial"].add(sig)
+    # search for a failing input after a broken skeleton obligation: is the offending method mutually excluded from
+    # a thread parked inside insert's / find's critical section?  (harness/excl.cpp)
+    if failed and g is not None:
+        try:
+            import sched_check
+            rep = res["extra"].get("skeleton_report", {})
+            probes = []
+            for c in failed:
+                kd = CLASSES.index(c)
+                for mname in sorted(set(re.findall(r'\("([A-Za-z_0-9]+)(?:/\d+)?",', rep.get(c, {}).get("offending", "")))):
+                    if mname in sched_check.METHOD_OPS:
+                        probes.append((kd, mname))
+            res["extra"]["exclusion_probes"] = run_excl(check, probes, prop, res)
+        except Exception as e:      # noqa
+            res["extra"]["exclusion_probes"] = "not run: %s" % e
     ok, lg = ensure_tsan(check, inc)
     if not ok:
         res["broken"].append(dict(what="tsan driver build", detail=lg[-2000:]))
